@@ -21,6 +21,23 @@ func (w *World) newAsync(kind string, conn, user int) int {
 func (w *World) asyncIssued(id int, err error) {
 	r := w.asyncs[id]
 	r.issued, r.err = true, err
+	if err == nil {
+		// reach: how many accepted requests were waiting when this one was accepted
+		pending := 0
+		for _, o := range w.asyncs {
+			if o.issued && o.err == nil && o.cbCount == 0 {
+				pending++
+			}
+		}
+		switch {
+		case pending >= 32:
+			w.probes["requests-pending>=32-at-issue"]++
+		case pending >= 8:
+			w.probes["requests-pending>=8-at-issue"]++
+		case pending >= 3:
+			w.probes["requests-pending>=3-at-issue"]++
+		}
+	}
 	w.logf("async %d %s conn=%d issued err=%v", id, r.kind, r.conn, err != nil)
 }
 
@@ -28,6 +45,8 @@ func (w *World) asyncIssued(id int, err error) {
 func (w *World) asyncDone(id int, c gnet.Conn, err error) {
 	r := w.asyncs[id]
 	r.cbCount++
+	w.execCounter++
+	r.execSeq = w.execCounter
 	r.cbErr = err
 	r.cbTask = vsched.CurrentName()
 	w.probes["async-executed"]++
